@@ -20,7 +20,7 @@ TRUSTED = [
 ]
 
 HEADER = ("From Coq Require Import ZArith List Bool.\nImport ListNotations.\n"
-          "From GT Require Import Base.Verdict SetModel SetJudge.\n")
+          "From GT Require Import Base.Verdict SetModel SetMultiModel SetJudge.\n")
 
 
 def nontrivial(j):
@@ -105,6 +105,7 @@ def run(ctx):
         ctx.report({"unchecked": "in-kernel evaluation of the correspondence", "detail": err},
                    {"kind": "coq_eval"}, failing_input=False)
         return
+    mjs = multi(ctx, binp, 300 if quick else 15000)
     for i, code in bad:
         j, step = jsons[i], None
         if ctx.nreplay < 5:
@@ -117,9 +118,12 @@ def run(ctx):
                     "replay_cmd": "./check C07 --replay <this file>"},
                    features(j, step), failing_input=(code == 1))
     nt = [j for j in jsons if nontrivial(j)]
-    ops = sum(len(j["ops"]) for j in jsons)
+    ops = sum(len(j["ops"]) for j in jsons) + sum(len(j["mops"]) for j in mjs)
     ctx.cov.update({
-        "evaluations": len(jsons),
+        "evaluations": len(jsons) + len(mjs),
+        "multi_variable_programs": len(mjs),
+        "multi_variable_note": "programs over 2-3 set variables where AddSet/RemoveSet take another variable (or the same one) as argument and every variable is probed after every step: catches storage shared between two sets",
+        "multi_op_histogram": hist(o["op"] for j in mjs for o in j["mops"]),
         "operations_compared": ops,
         "distinct_nontrivial": vlib.distinct_count([[j["elem"], j["universe"], j["ops"]] for j in nt]),
         "rule": "cases = op sequences (1-40 ops) over universes of 3-8 int/string/struct elements from nil, "
@@ -134,6 +138,63 @@ def run(ctx):
         "disagreements": len(bad),
     })
     ctx.log("correspondence: %d cases, %d operations, %d disagreement(s)" % (len(jsons), ops, len(bad)))
+
+
+def multi(ctx, binp, n):
+    terms, jsons, err = vlib.harness_cases(ctx, binp, [("multi", ["-mode", "multi", "-n", n])])
+    if err:
+        ctx.report({"unchecked": "harness run (multi)", "detail": err}, {"kind": "harness"}, failing_input=False)
+        return []
+    bad, _, err = ctx.judge_cases(HEADER, "mset_case", "mset_judge", terms, shard=60, tag="multi")
+    if err:
+        ctx.report({"unchecked": "in-kernel evaluation of the correspondence (multi)", "detail": err},
+                   {"kind": "coq_eval"}, failing_input=False)
+        return jsons
+    for i, code in bad:
+        j = jsons[i]
+        if ctx.nreplay < 5:
+            j, code = minimise_multi(ctx, binp, j, code)
+        ctx.report({"case": j, "verdict": {1: "observation violates the mathematical-set specification (several variables)",
+                                           2: "observation differs from the Coq model"}[code]},
+                   {"kind": "multi", "elem": j["elem"], "ops": sorted({o["op"] for o in j["mops"]})},
+                   failing_input=(code == 1))
+    ctx.log("multi-variable programs: %d, %d disagreement(s)" % (len(jsons), len(bad)))
+    return jsons
+
+
+def minimise_multi(ctx, binp, j, code):
+    """delta-debug the program: shortest failing prefix, then drop single operations while the
+    re-executed program still fails"""
+    def fails(ops):
+        path = os.path.join(ctx.scratch, "mcand.jsonl")
+        with open(path, "w") as f:
+            f.write(json.dumps({"kind": "multi/minimised", "elem": j["elem"], "universe": j["universe"],
+                                "vars": j["vars"], "mops": ops}) + "\n")
+        terms, js, err = vlib.harness_cases(ctx, binp, [("mcand", ["-mode", "multifile", "-in", path])])
+        if err:
+            return None
+        bad, _, err = ctx.judge_cases(HEADER, "mset_case", "mset_judge", terms, shard=10, tag="mcand")
+        if err or not bad:
+            return None
+        return js[0], bad[0][1]
+    ops = j["mops"]
+    best = None
+    for k in range(1, len(ops) + 1):
+        r = fails(ops[:k])
+        if r:
+            best, ops = r, ops[:k]
+            break
+    if not best:
+        return j, code
+    i = 0
+    while i < len(ops) - 1 and len(ops) > 1:
+        cand = ops[:i] + ops[i + 1:]
+        r = fails(cand)
+        if r:
+            best, ops = r, cand
+        else:
+            i += 1
+    return best
 
 
 def hist(it):
